@@ -193,14 +193,14 @@ class Analyzer3:
             elif ev.kind == 'declinit':
                 d = ev.lhs
                 if ev.rhs is not None and self.is_charp(d['ty']):
-                    self.assign(st, d['n'], ev.rhs)
+                    self.assign(st, d['n'], ev.rhs, record, ev.rhs)
                 elif ev.rhs is not None and self.u.ty(d['ty'])['c'] == 'int':
                     self.assign_int(st, d['d'], ev.rhs)
             elif ev.kind == 'call':
                 self.do_call(ev.node, st, record)
         return st
 
-    def assign(self, st, name, rhs):
+    def assign(self, st, name, rhs, record=False, node=None):
         st.nz.pop(name, None)
         st.back.pop(name, None)
         for k in [k for k in st.rel if k[0] == name]:
@@ -211,6 +211,11 @@ class Analyzer3:
             self.tracked.add(name)
             if nz > NEG and pn[1] <= nz:
                 st.nz[name] = nz - pn[1]
+            if pn[1] > 0 and record and node is not None:
+                # a cursor placed k bytes ahead steps over k bytes of the string, like an advance by k
+                self.site('BND3', node, 'cursor %s placed %d byte(s) after %s stays inside the string' % (name, pn[1], pn[0]),
+                          nz > NEG and pn[1] <= nz, 'proved %s non-terminator byte(s) at %s' % (nz if nz > NEG else 'no', pn[0]),
+                          'place:%s=%s+%d' % (name, pn[0], pn[1]))
 
     def assign_int(self, st, did, rhs):
         for k in [k for k in st.rel if k[1] == did]:
@@ -233,11 +238,22 @@ class Analyzer3:
                 for k in [k for k in st.rel if k[0] == key]:
                     del st.rel[k]
                 pn = self.norm(a['r'])
+                if key.startswith('*') and key in self.tracked and record:
+                    # the caller goes on reading at the cursor handed back: it has to be a position inside the string
+                    nzs = st.nz.get(pn[0], NEG) if (pn and pn[0] in self.tracked) else NEG
+                    self.site('BND3', a, 'cursor handed back through %s is a position inside the string' % key,
+                              nzs > NEG and pn[1] <= nzs, 'derived from %s with %s non-terminator byte(s) proved' % (
+                                  pn[0], nzs) if nzs > NEG else 'not derived from a cursor known to be inside the string',
+                              'handback:%s' % key)
                 if pn and pn[0] in self.tracked and key in self.readkeys:
                     nz = st.nz.get(pn[0], NEG) if pn[0] != key else NEG
                     self.tracked.add(key)
                     if nz > NEG and pn[1] <= nz:
                         st.nz[key] = nz - pn[1]
+                    if pn[1] > 0 and record and pn[0] != key:
+                        self.site('BND3', a, 'cursor %s placed %d byte(s) after %s stays inside the string' % (key, pn[1], pn[0]),
+                                  nz > NEG and pn[1] <= nz, 'proved %s non-terminator byte(s) at %s' % (nz if nz > NEG else 'no', pn[0]),
+                                  'place:%s=%s+%d' % (key, pn[0], pn[1]))
             elif op in ('+=', '-='):
                 c = const_val(a['r'])
                 if c is not None:
@@ -424,7 +440,31 @@ def _read_keys(u, fn):
                     if pn:
                         written.add(pn[0])
     # cursors that are only advanced (a skipping helper) count as read cursors; pure write cursors do not
-    return keys | (adv - written)
+    keys = keys | (adv - written)
+    # a cursor that a read cursor is pointed at (char *c = *input + 2; ... *input = c) and one that receives a read
+    # cursor back are read cursors too
+    copies = []
+    for n in probe.cfg.nodes:
+        for ev in node_effects(n):
+            if ev.kind == 'store' and ev.node['op'] == '=':
+                k, pn = probe.key(ev.lhs), probe.norm(ev.node['r'])
+                if k and pn:
+                    copies.append((k, pn[0]))
+            elif ev.kind == 'declinit' and ev.rhs is not None and probe.is_charp(ev.lhs['ty']):
+                pn = probe.norm(ev.rhs)
+                if pn:
+                    copies.append((ev.lhs['n'], pn[0]))
+    changed = True
+    while changed:
+        changed = False
+        for (dst, src) in copies:
+            if dst in keys and src not in keys and src not in written:
+                keys.add(src)
+                changed = True
+            if src in keys and dst not in keys and dst not in written:
+                keys.add(dst)
+                changed = True
+    return keys
 
 
 def _cursor_params(u, fn):
